@@ -1892,13 +1892,17 @@ func (s *ImmuStore) performPrecommit(tx *Tx, entries []*EntrySpec, ts int64, blT
 
 	tx.header.BlTxID = blTxID
 
+	// the holder comes from a pool: BlRoot is assigned even when there is nothing to link to
+	var blRoot [sha256.Size]byte
+
 	if blTxID > 0 {
-		blRoot, err := s.aht.RootAt(blTxID)
+		blRoot, err = s.aht.RootAt(blTxID)
 		if err != nil && !errors.Is(err, ahtree.ErrEmptyTree) {
 			return err
 		}
-		tx.header.BlRoot = blRoot
 	}
+
+	tx.header.BlRoot = blRoot
 
 	if tx.header.ID <= tx.header.BlTxID {
 		return ErrUnexpectedLinkingError
@@ -2391,6 +2395,8 @@ func (s *ImmuStore) preCommitWith(ctx context.Context, callback func(txID uint64
 	defer s.releaseAllocTx(tx)
 
 	tx.header.Version = s.writeTxHeaderVersion
+	// the holder comes from a pool: whatever the previous transaction left in it must not be inherited
+	tx.header.Metadata = otx.metadata
 	tx.header.NEntries = len(otx.entries)
 
 	doneWithValuesCh := make(chan appendableResult)
